@@ -37,6 +37,11 @@ func genC07(seed uint64, run int, tier string) Scenario {
 	// already closed channel and an already expired timer, a choice the Go runtime makes at random
 	// and no seam can own -- the forced path is reached through a reader blocked in a read instead)
 	rdNS := pick(r, 2_000, 20_000, 50_000, 100_000, 250_000, 250_000, 500_000, 1_000_000)
+	if leg == "R" && r.IntN(4) == 0 {
+		// the free-running leg needs no replay: zero grace is back in (Close's select between the
+		// closed channel and the expired timer goes either way)
+		rdNS = pick(r, 0, 200, 900)
+	}
 	sc.ReadDelayUS = int64(rdNS / 1000)
 	sc.ReadSize = pick(r, 1, 64, 8192)
 	sc.SearchDepth = 1000
@@ -218,8 +223,10 @@ func runC07(env *Env, s Scenario) {
 			env.Fail("operation-hangs-after-close", sr.Spawned.Kind, "the %s in flight when Close was called had not returned %v after Close", sr.Spawned.Kind, settle)
 		}
 	}
-	// leaked goroutines: none with a library frame may remain after the settle period
-	if !sc.Uncontrol {
+	// leaked goroutines: none with a library frame may remain after the settle period (in the
+	// free-running leg too: the bubble's clock only passed the settle period because every
+	// goroutine left in it is blocked for good or asleep beyond it)
+	{
 		var leaked []string
 		for _, l := range BubbleStacks() {
 			if sc.F.CloseMode == "stuck" {
